@@ -401,6 +401,9 @@ func (e *mgrEngine) concStress(goroutines, iters int, seed int64, o *Out) {
 		}
 		if reg != loc || reg != ShowCounts(adv) {
 			o.Fail("C05", "quiescent-stores-differ-after-concurrency", fmt.Sprintf("pass=%d registered=%s cluster=%s advertised=%s", pass, reg, loc, ShowCounts(adv)))
+			// C16: "an upstream is available for routing exactly while its connection is open … once all
+			// upstreams are gone the node advertises nothing" rests on the same agreement of the stores
+			o.Fail("C16", "advertised-vs-registered-after-concurrency", fmt.Sprintf("pass=%d registered=%s cluster=%s advertised=%s", pass, reg, loc, ShowCounts(adv)))
 			return
 		}
 		for _, u := range ups {
